@@ -79,16 +79,22 @@ impl Source for MioListener {
         match *self {
             MioListener::Tcp(ref mut lst) => lst.deregister(registry),
             #[cfg(unix)]
-            MioListener::Uds(ref mut lst) => {
-                let res = lst.deregister(registry);
+            MioListener::Uds(ref mut lst) => lst.deregister(registry),
+        }
+    }
+}
 
-                // cleanup file path
-                if let Ok(addr) = lst.local_addr() {
-                    if let Some(path) = addr.as_pathname() {
-                        let _ = std::fs::remove_file(path);
-                    }
+#[cfg(unix)]
+impl Drop for MioListener {
+    fn drop(&mut self) {
+        // Clean up the file path of a Unix domain socket when the listener goes away for good.
+        // Deregistration is temporary (pause, back-off after an accept error) and the listener is
+        // registered again afterwards, so the path must stay in place for clients until then.
+        if let MioListener::Uds(ref lst) = *self {
+            if let Ok(addr) = lst.local_addr() {
+                if let Some(path) = addr.as_pathname() {
+                    let _ = std::fs::remove_file(path);
                 }
-                res
             }
         }
     }
